@@ -137,6 +137,15 @@ inline std::string_view url_pattern_compile_component_options::get_prefix()
   return {};
 }
 
+#ifdef ADA_URL_ADA_VERIF
+namespace verif {
+// Verification hook: when set, compile() never selects the EMPTY / EXACT_MATCH /
+// FULL_WILDCARD shortcuts, so that every component runs through the regex
+// provider and the two executions of one pattern can be compared.
+inline bool force_regexp_components = false;
+}  // namespace verif
+#endif
+
 template <url_pattern_regex::regex_concept regex_provider>
 template <url_pattern_encoding_callback F>
 tl::expected<url_pattern_component<regex_provider>, errors>
@@ -162,7 +171,12 @@ url_pattern_component<regex_provider>::compile(
       url_pattern_component_type::REGEXP;
   std::string exact_match_value{};
 
-  if (part_list->empty()) {
+#ifdef ADA_URL_ADA_VERIF
+  if (verif::force_regexp_components) {
+    // keep REGEXP
+  } else
+#endif
+      if (part_list->empty()) {
     component_type = url_pattern_component_type::EMPTY;
   } else if (part_list->size() == 1) {
     const auto& part = (*part_list)[0];
